@@ -7,11 +7,9 @@ INVARIANTS
   C10_ReadBack_NoDangling
   C10_Eval_StaleSet
   C10_Eval_CorruptStmt
-  C10_Eval_ExtSetDelete
   C10_Verdict_DefaultUnset
   C10_Attrs_ExtRemove
   C10_StoredUnchanged_LargeAdd
-  C10_ReadBack_ExtSetDelete
   C10_ReadBack_CorruptStmt
   C10_ReadBack_DefaultUnset
   C10_ReadBack_ApiOrigin
